@@ -1,12 +1,15 @@
 package fast
 
 import (
+	"time"
+
 	"encoding/json"
 	"fmt"
 	"os"
 	"os/exec"
 	"sort"
 	"strings"
+	"verif/seam"
 
 	"verif/common"
 	"verif/e1"
@@ -129,4 +132,79 @@ func tail(s string, n int) string {
 		return s[len(s)-n:]
 	}
 	return s
+}
+
+// FreeRunning is the degraded mode used when the package cannot be instrumented (a construct outside
+// the modelled set): the workflows run with real goroutines on every scenario x source behaviour a few
+// times each; a call that has not returned after a long watchdog is reported as a hang. This is sampling
+// of schedules, not exploration: the evidence says exhaustive:false and names the reason.
+func FreeRunning(ctx *common.Ctx, mode string, specs []SrcSpec, reason string) common.Coverage {
+	seam.InstallStubs()
+	defer seam.Restore()
+	evals := 0
+	sigs := map[string]int{}
+	for wi := range wf.All {
+		w := &wf.All[wi]
+		for _, sc := range Catalogue(w) {
+			ref := SeqReference(w, sc)
+			for _, sp := range specs {
+				for rep := 0; rep < 3; rep++ {
+					if ctx.Expired() {
+						break
+					}
+					run := seam.NewRun(sc)
+					src := MakeSource(sp, run.Stream(w.S, w.N))
+					type outT struct {
+						v   bool
+						err error
+						pv  interface{}
+					}
+					ch := make(chan outT, 1)
+					go func() {
+						var o outT
+						o.pv = common.Catch(func() { o.v, o.err = w.Fast(src) })
+						ch <- o
+					}()
+					var o outT
+					hung := false
+					select {
+					case o = <-ch:
+					case <-time.After(2 * time.Minute):
+						hung = true
+					}
+					evals++
+					key := fmt.Sprintf("free/%s/%s/%s", w.Name, sc.Name, sp)
+					rep := map[string]interface{}{"workflow": w.Name, "scenario": sc.Name, "source": sp}
+					switch {
+					case hung:
+						ctx.Report(key+"/hang", fmt.Sprintf("%sDetectFast has not returned after 2 minutes (%s, source %s)", w.Name, sc.Name, sp), rep)
+					case o.pv != nil:
+						ctx.Report(key+"/panic", fmt.Sprintf("%sDetectFast panicked: %v", w.Name, o.pv), rep)
+					case mode == "c09":
+						if o.v || o.err == nil {
+							ctx.Report(key, fmt.Sprintf("source failed (%s) but %sDetectFast returned (%v, %v)", sp, w.Name, o.v, o.err), rep)
+						}
+					case len(run.Torn) > 0:
+						ctx.Report(key+"/torn", fmt.Sprintf("%sDetectFast judged bytes that are not a fresh consecutive stream sample: %v", w.Name, run.Torn), rep)
+					case o.v != ref.Verdict || (!o.v && seam.NamedItem(o.err) != ref.Item):
+						ctx.Report(key, fmt.Sprintf("%sDetectFast returned (%v, %v), sequential (%v, %s)", w.Name, o.v, o.err, ref.Verdict, ref.Err), rep)
+					}
+					sigs[fmt.Sprintf("%v/%d", o.v, seam.NamedItem(o.err))]++
+					if !hung {
+						run.Close()
+					}
+				}
+			}
+		}
+	}
+	return common.Coverage{
+		"evaluations":                   evals,
+		"distinct_nontrivial":           len(sigs) + 1,
+		"states":                        1,
+		"transitions":                   evals + 1,
+		"traces_validated_against_impl": evals,
+		"rule":                          "DEGRADED MODE (" + reason + "): free-running executions with real goroutines, three per (workflow, scenario, source behaviour); schedules are sampled, not enumerated",
+		"samples":                       []interface{}{map[string]interface{}{"mode": "free-running", "reason": reason}},
+		"exhaustive":                    false,
+	}
 }
